@@ -31,7 +31,7 @@ NoFin == [h |-> 0, r |-> 0]
 NoJump == [h |-> 0, r |-> 0]
 Up == s # Down /\ pan = "" /\ ~stopped
 
-InitStores == [actions |-> [k \in {} |-> NULL], fin |-> {}, smhr |-> <<0, 0>>]
+InitStores == [actions |-> [k \in {} |-> NULL], fin |-> [h \in {} |-> "G"], smhr |-> <<0, 0>>]
 
 Targets == Blocks \cup {"nil"}
 
@@ -55,12 +55,12 @@ Blocked(x) == \E i \in 1..Len(x.o) : x.o[i].t = "blocked"
 Entrances(x) == Cardinality({i \in 1..Len(x.o) : x.o[i].t = "entrance"})
 
 Proj(ss, sst, e) ==
-  IF ss = Down THEN [down |-> TRUE, st |-> [actions |-> {[k |-> k, v |-> sst.actions[k]] : k \in DOMAIN sst.actions}, fin |-> sst.fin, smhr |-> sst.smhr]]
+  IF ss = Down THEN [down |-> TRUE, st |-> [actions |-> {[k |-> k, v |-> sst.actions[k]] : k \in DOMAIN sst.actions}, fin |-> DOMAIN sst.fin, smhr |-> sst.smhr]]
   ELSE [down |-> FALSE, H |-> ss.H, R |-> ss.R, S |-> IF ss.replaying THEN "Catchup" ELSE ss.S, timer |-> ss.timer,
         propCh |-> ss.propCh, prevoteCh |-> ss.prevoteCh, precommitCh |-> ss.precommitCh, finCh |-> ss.finCh,
         finalized |-> ss.finalized, cwElapsed |-> ss.cwElapsed, replaying |-> ss.replaying,
         vrvVer |-> ss.vrv.ver, cm |-> ss.cm,
-        st |-> [actions |-> {[k |-> k, v |-> sst.actions[k]] : k \in DOMAIN sst.actions}, fin |-> sst.fin, smhr |-> sst.smhr]]
+        st |-> [actions |-> {[k |-> k, v |-> sst.actions[k]] : k \in DOMAIN sst.actions}, fin |-> DOMAIN sst.fin, smhr |-> sst.smhr]]
 
 \* record the outputs of a macro step in the property history
 Signs(x) == SelectSeq(x.o, LAMBDA r : r.t = "sign")
@@ -202,6 +202,12 @@ C08_PosForward == [][(s # Down /\ s' # Down) => (s'.H > s.H \/ (s'.H = s.H /\ s'
 \* candidate state invariants evaluated by the suite monitor on the real RoundLifecycle (lib/smsuitemon.py)
 C08_FinStepHasElapsed == (Up /\ ~s.replaying /\ s.S = "AwaitingFinalization") => s.cwElapsed
 
+
+\* C07 (state machine half): every header the state machine signs as a proposal carries the validator set the chain
+\* prescribes for its height and, as next set, the one prescribed for the height after it -- in particular after restarts
+\* and catch-up, where the sets are rebuilt from the finalization store
+C07_SMSets == \A i \in 1..Len(signed) :
+                 signed[i].kind = "proposal" => (signed[i].vs = ChainVS(signed[i].h) /\ signed[i].nvs = ChainVS(signed[i].h + 1))
 
 \* C12(a): a timer is armed exactly in the timed steps
 TimedStep(S) == S \in {"AwaitingProposal", "PrevoteDelay", "PrecommitDelay", "CommitWait"}
